@@ -303,6 +303,34 @@ pub fn sites(tier: Tier) -> Vec<Site> {
         let tt = t.clone();
         let alpha = Arc::new(alpha);
         let a2 = alpha.clone();
+        {
+            // no memory between calls: every ordered pair of strings of length <= 2 over the same alphabet,
+            // converted one after the other on one thread - the second result is the one it has on its own
+            let mut short: Vec<String> = vec![String::new()];
+            for x in alpha.iter() { short.push(x.to_string()); }
+            for x in alpha.iter() { for y in alpha.iter() { short.push(format!("{x}{y}")); } }
+            let short = Arc::new(short);
+            let n = (short.len() * short.len()) as u64;
+            sites.push(Site::new("conversion-pairs", n,
+                "every ordered pair of strings of length <= 2 over the strings alphabet: encode and decode of the second string give the same bytes / text right after the first as on their own",
+                move |i, acc| {
+                    acc.eval();
+                    let a = &short[(i as usize) / short.len()];
+                    let b = &short[(i as usize) % short.len()];
+                    let alone_e = to_lossy_bytes(b).to_vec();
+                    let alone_d = to_lossy_string(&alone_e).to_string();
+                    let ea = to_lossy_bytes(a).to_vec();
+                    let _ = to_lossy_string(&ea).to_string();
+                    let after_e = to_lossy_bytes(b).to_vec();
+                    let after_d = to_lossy_string(&after_e).to_string();
+                    if alone_e == after_e && alone_d == after_d {
+                        acc.class("pair-agrees");
+                        acc.nontrivial();
+                    } else {
+                        acc.violate(i, "C10|history-dependent".into(), format!("{b:?} converts to {} / {after_d:?} right after {a:?}, to {} / {alone_d:?} otherwise", hex(&after_e), hex(&alone_e)), json!({"site": "conversion-pairs", "index": i}));
+                    }
+                }));
+        }
         sites.push(Site::new("strings", count,
             &format!("all strings of length 0..={maxlen} over {{ASCII, one character owned by each of the ten pages, a character shared by several pages, a character in no page, a double-byte character with trail byte 0x5E from each double-byte page, one with a lead-like trail byte, '8', 'L', yen sign, overline}} ({} symbols)", a2.len()),
             move |i, acc| {
